@@ -92,7 +92,11 @@ def _power_law_running(F, R):
     R.rule("R7", "each running-mass routine is one power law in the scale, m(Q) = B (Q/Q0)^(-c * coupling) with c > 0 and B, Q0 "
                  "independent of Q (boundary value at Q0, monotonically decreasing, composition Q1 -> Q2 -> Q3 = Q1 -> Q3); a split "
                  "on the scale must be continuous at its boundary", 3)
-    E = Evaluator(F, inline=lambda n, g: False, max_depth=2)
+    # file-local helpers of gm2_mf.cpp that contain the power law itself (a shared "run to Q" helper) are looked through;
+    # helpers that compute a coupling or a boundary value stay opaque atoms
+    E = Evaluator(F, inline=lambda n, g: g.get("file") == "src/gm2_mf.cpp" and "(anonymous namespace)" in str(g.get("name"))
+                  and any(is_call(x) and str(x.get("fn") or "").split("::")[-1] in ("pow", "exp") for x in walk(g["body"])),
+                  max_depth=3)
     SC = ("sym", "scale")
 
     def has_scale(t):
@@ -443,7 +447,9 @@ def run(F, R, tier):
         fin_re = re.search(r"isfinite\(real\(V13conj\)\)", txt) and re.search(r"isfinite\(imag\(V13conj\)\)", txt)
         fin_abs = re.search(r"isfinite\((abs|norm)\(V13conj\)\)", txt)
         pos = [c_ for c_, pol in gs if pol]
-        only_fin = bool(pos) and all(re.match(r"^\(?(isfinite\(.*\))( && isfinite\(.*\))*\)?$", t_) for t_ in pos)
+        # further positive guards may only be upper bounds on |V13| (they exclude inf and NaN as well)
+        only_fin = bool(pos) and all(re.match(r"^\(?(isfinite\(.*\))( && isfinite\(.*\))*\)?$", t_) or
+                                     re.match(r"^\(s13 <=? [0-9.]+\)$", t_) for t_ in pos)
         ok = (not rhs_dep) or ((fin_re or fin_abs) and only_fin)
         R.check("R1", bool(ok), "%s assigned from V13conj only if it is finite [%s]" % (var, txt[:80]), F.loc(gw, a),
                 "%s = %s is guarded by `%s`, which does not exclude an infinite V13conj: a non-finite angle "
